@@ -161,6 +161,10 @@ def depth_of(cfg, conn):
 
 
 def run(tier, seed, rep):
+    # histories of several requests on one object under the full fault alphabet (mc/sessions.py)
+    from .. import sessions
+    _ses = sessions.explore_sessions(tier, seed, {'C04'}, light=False)
+    rep.add_many([v for v in _ses.violations if v['prop'] == 'C04'])
     jobs = []
     for cfg in configs(tier):
         letters = alphabet(cfg['transport'])
@@ -220,7 +224,8 @@ def run(tier, seed, rep):
             conf = dict(traces_replayed_on_real_loopback=n_c, agreeing_with_kernel_model=agree, persistent_mismatches=mism)
         except Exception as e:  # noqa: BLE001
             conf = dict(error=f'{type(e).__name__}: {e}')
-    cov = dict(states=len(total.states), transitions=len(total.edges), executions=total.executions,
+    cov = dict(session_histories=_ses.executions, session_states=len(_ses.states), session_choice_points=_ses.choice_points,
+               states=len(total.states), transitions=len(total.edges), executions=total.executions,
                traces_validated_against_impl=total.executions, choice_points=total.choice_points,
                distinct_outcome_classes=len(total.outcomes), exhaustive=not total.capped,
                bound='product over all choice points (depth R+1 transmissions + connect outcomes) for R<=2; '
@@ -235,6 +240,11 @@ def run(tier, seed, rep):
 
 
 def replay(r):
+    if r.get('part') == 'session':
+        from .. import sessions
+        out = sessions.replay(r)
+        out['violations'] = [m for m in out['violations'] if m[0] == 'C04']
+        return out
     cfg = r['cfg']
     ctx = Ctx(r['choices'])
     obs = run_single(cfg, ctx, r['letters'], r['conn_letters'], fp=False, prior=PRIORS[cfg.get('prior', 'none')])
